@@ -97,16 +97,17 @@ structure E7 (s : State) : Prop where
   qMic : s.reopened = false → (s.loc .R).q = true →
     (s.loc .R).m = .rLdOwn ∨ (s.loc .R).m = .tLdState ∨ (s.loc .R).m = .tLdCount ∨ (s.loc .R).m = .tCasEC ∨
     (s.loc .R).m = .ret .disc
+  qCnt : s.reopened = false → (s.loc .R).q = true → ((s.loc .R).m = .tLdCount ∨ (s.loc .R).m = .tCasEC) → s.scount = 0
 
 /-- W8: the wake invariant (see the header) -/
 structure W8 (s : State) : Prop where
-  w1 : ∀ t, (s.loc .R).k = .recv t → ((s.loc .R).stage = 2 ∨ (s.loc .R).m = .park) →
+  w1 : ∀ t, (s.loc .R).k = .recv t → (2 ≤ (s.loc .R).stage ∨ (s.loc .R).m = .park) →
         s.tok t = true ∨ s.waker = some (.task t) ∨ ∃ b, (s.loc b).m = .wkUnpark t
   w1a : (s.loc .R).m = .park → s.waker ≠ none → s.armed = true
-  pns : ((s.loc .R).m = .park ∨ ((s.loc .R).stage = 2 ∧ (s.loc .R).m = .tLdCount)) → s.rClosedIt = false
-  c2s : s.waker ≠ none → (s.armed = true ∨ ((s.loc .R).stage = 2 ∧ (s.loc .R).m = .tLdCount)) →
+  pns : ((s.loc .R).m = .park ∨ (2 ≤ (s.loc .R).stage ∧ (s.loc .R).m = .tLdCount)) → s.rClosedIt = false
+  c2s : s.waker ≠ none → (s.armed = true ∨ (2 ≤ (s.loc .R).stage ∧ (s.loc .R).m = .tLdCount)) →
         s.st = .sent → ∃ b, (s.loc b).m = .wake
-  c2c : s.waker ≠ none → (s.armed = true ∨ ((s.loc .R).stage = 2 ∧ (s.loc .R).m = .tLdCount)) →
+  c2c : s.waker ≠ none → (s.armed = true ∨ (2 ≤ (s.loc .R).stage ∧ (s.loc .R).m = .tLdCount)) →
         s.closed .R = false → s.st = .closed → s.rClosedIt = true ∨ ∃ b, inPW (s.loc b).m
 
 theorem c5_init (progS : Nat → List Op) (progR : List Op) : C5 (init progS progR) := by
